@@ -5,8 +5,9 @@ Model of `pedantic/decorators/fn_deco_validate/fn_deco_validate.py` (`validate`:
 (`parameters/abstract_parameter.py`), plus Python's own binding of a call `f(*pos, **kw)` to a signature.
 
 Taken from `PedVerif.Gen.Validate` (regenerated from the source on every run): the `is_required` rule, the order of the
-three loops and which sit under `if not ignore_input`, the `wants_args` rule and the test of the `zip` branch, the dispatch
-programs of `wrapper` and `async_wrapper`, the `if` of the KWARGS_WITHOUT_NONE filter, the decision code of
+three loops and which sit under `if not ignore_input`, the `wants_args` rule and the test of the `zip` branch, how the receiver
+of a method is recognised (`receiver_name`: by the signature — or, in the former shape of the source, by the key `'self'`), the
+strict tests of the loops, the dispatch programs of `wrapper` and `async_wrapper`, the `if` of the KWARGS_WITHOUT_NONE filter, the decision code of
 `_split_by_signature`, and the naming of a rejection: `ParameterException.from_validator_exception` (which of the two names —
 the Parameter's own, or the `parameter_name` the `ValidatorException` already carries — ends up in the exception), the
 arguments `Parameter.validate` passes to it, and `Validator.validate_param` (which labels the exception of a delegate).
@@ -159,6 +160,17 @@ def Sig.wantsArgs (s : Sig) : Bool :=
     ((s.varArgs && s.varName == argsName) || (s.pos ++ s.kwOnly).any (·.name == argsName))
 
 def Sig.named (s : Sig) : List SParam := s.pos ++ s.kwOnly
+
+/-- `inspect.signature(func).parameters.items()` as (name, kind is positional) -/
+def sigItems (sig : Sig) : List (Name × Bool) :=
+  sig.pos.map (fun s => (s.name, true)) ++ (if sig.varArgs then [(sig.varName, false)] else [])
+    ++ sig.kwOnly.map (fun s => (s.name, false))
+
+/-- `receiver_name`: the name under which the receiver of a method arrives, computed once per decorated function from its signature
+    (rule generated from the source: `'self' if next(iter(inspect.signature(func).parameters), None) == 'self' else None`);
+    `none` = Python's `None`: the function has no receiver -/
+def Sig.receiver (s : Sig) : Option Name :=
+  receiverName ((sigItems s).head?.map (·.1) == some selfName) ((sigItems s).any (·.1 == selfName))
 def Sig.posNames (s : Sig) : List Name := s.pos.map (·.name)
 /-- `signature.parameters[name].default` when present and not `empty` -/
 def Sig.default? (s : Sig) (n : Name) : Option PV := (s.named.find? (·.name == n)).bind (·.dflt)
@@ -190,17 +202,17 @@ def bindPartial (sig : Sig) (args : List PV) : Except VExc Bound :=
     else .ok ⟨sig.posNames.zip args ++ [(sig.varName, sig.tupleOf (args.drop sig.pos.length))], []⟩
   else .error .validate          -- `except TypeError as ex: raise ValidateException(str(ex))`
 
-/-- second loop, the branches `elif k in parameter_dict` / `else` -/
-def loopPos (ps : List VParam) (strict : Bool) :
+/-- second loop, the branches `elif k in parameter_dict` / `else`; `recv` is the value of `receiver_name` -/
+def loopPos (ps : List VParam) (strict : Bool) (recv : Option Name) :
     List (Name × PV) → Assoc → List Name → List PV → Except VExc (Assoc × List Name × List PV)
   | [], res, used, ua => .ok (res, used, ua)
   | (k, v) :: rest, res, used, ua =>
     match findP ps k with
     | some p => do
         let v' ← p.validate v
-        loopPos ps strict rest (res.set k v') (used ++ [p.name]) (ua ++ [v])
+        loopPos ps strict recv rest (res.set k v') (used ++ [p.name]) (ua ++ [v])
     | Option.none =>
-      if posStrictTest strict k then .error .tooMany else loopPos ps strict rest (res.set k v) used ua   -- test generated
+      if posStrictTest strict k recv then .error .tooMany else loopPos ps strict recv rest (res.set k v) used ua   -- test generated
 
 /-- second loop, the branch `if k == 'args' and wants_args`: the inner `for arg, parameter in zip(…)` -/
 def loopZip : List (PV × VParam) → Assoc → List Name → Except VExc (Assoc × List Name)
@@ -259,7 +271,7 @@ def runLoop (c : Cfg) (args : List PV) (kw : List (Name × PV)) (l : Loop) (st :
   | .kw => loopKw c.ps c.strict kw st.1 st.2
   | .pos => do
       let b ← bindPartial c.sig args
-      let (r, u, ua) ← loopPos c.ps c.strict b.named st.1 st.2 []
+      let (r, u, ua) ← loopPos c.ps c.strict c.sig.receiver b.named st.1 st.2 []
       if b.extras.isEmpty then pure (r, u) else loopZip (zipPairs c.ps args u ua) r u
   | .unused => do
       let r ← loopUnused c.sig (c.ps.filter (fun p => !st.2.contains p.name)) st.1
@@ -300,11 +312,6 @@ def bindCall (sig : Sig) (pos : List PV) (kw : Assoc) : Except VExc Binding :=
 
 /-! ### The hand-over (`wrapper` / `async_wrapper` / `_split_by_signature`) -/
 
-/-- `inspect.signature(func).parameters.items()` as (name, kind is positional) -/
-def sigItems (sig : Sig) : List (Name × Bool) :=
-  sig.pos.map (fun s => (s.name, true)) ++ (if sig.varArgs then [(sig.varName, false)] else [])
-    ++ sig.kwOnly.map (fun s => (s.name, false))
-
 /-- the prefix loop of `_split_by_signature` (test generated) -/
 def prefixNames (sig : Sig) (res : Assoc) : List Name :=
   ((sigItems sig).takeWhile (fun it => !prefixStops (res.has it.1) it.2)).map (·.1)
@@ -325,11 +332,20 @@ def splitBySig (sig : Sig) (res : Assoc) : Except VExc (List PV × Assoc) :=
       pure (vs, res.filter (fun kv => !(prefixNames sig res).contains kv.1))
   | .allValues => .ok (res.map (·.2), [])
 
-def callWith (sig : Sig) (f : CallForm) (res : Assoc) : Except VExc Binding :=
+/-- `<key> in result`, where the key is a name or `None` (never a key of the dict) -/
+def Assoc.hasKey (d : Assoc) : Option Name → Bool
+  | some k => d.has k
+  | Option.none => false
+
+/-- `rk` is the key under which the wrapper looks the receiver up (generated: the value of `receiver_name`) -/
+def callWith (sig : Sig) (rk : Option Name) (f : CallForm) (res : Assoc) : Except VExc Binding :=
   match f with
-  | .selfKw =>
-    match res.get? selfName with
-    | some s => bindCall sig [s] (res.filter (fun kv => kv.1 != selfName))
+  | .selfKw =>       -- `func(result.pop(<rk>), **result)`
+    match rk with
+    | some k =>
+      match res.get? k with
+      | some s => bindCall sig [s] (res.filter (fun kv => kv.1 != k))
+      | Option.none => .error .keyError
     | Option.none => .error .keyError
   | .split => do
       let (p, k) ← splitBySig sig res
@@ -338,22 +354,27 @@ def callWith (sig : Sig) (f : CallForm) (res : Assoc) : Except VExc Binding :=
   | .values => bindCall sig (res.map (·.2)) []
 
 /-- the conditions that enclose a statement hold -/
-def guardHolds (s : GStmt) (m : Mode) (res : Assoc) : Bool :=
-  (match s.mode with | some m' => m' == m | Option.none => true) && (!s.ifSelf || res.has selfName)
+def guardHolds (s : GStmt) (m : Mode) (rk : Option Name) (res : Assoc) : Bool :=
+  (match s.mode with | some m' => m' == m | Option.none => true) && (!s.ifSelf || res.hasKey rk)
 
 /-- interpreter of the generated dispatch program -/
-def exec (keep : Bool → Bool → Bool) : List GStmt → Mode → Assoc → Option (CallForm × Assoc)
+def exec (keep : Bool → Bool → Bool) (rk : Option Name) : List GStmt → Mode → Assoc → Option (CallForm × Assoc)
   | [], _, _ => Option.none
   | s :: rest, m, res =>
-    if guardHolds s m res then
+    if guardHolds s m rk res then
       match s.act with
-      | .filter => exec keep rest m (res.filter (fun kv => keep kv.2.isNone kv.2.truthy))
+      | .filter => exec keep rk rest m (res.filter (fun kv => keep kv.2.isNone kv.2.truthy))
       | .ret f => some (f, res)
-    else exec keep rest m res
+    else exec keep rk rest m res
+
+/-- the key under which `wrapper` / `async_wrapper` looks the receiver up (generated) -/
+def receiverKey (sig : Sig) (isAsync : Bool) : Option Name :=
+  if isAsync then asyncWrapperReceiverKey sig.receiver else wrapperReceiverKey sig.receiver
 
 def dispatch (sig : Sig) (isAsync : Bool) (m : Mode) (res : Assoc) : Except VExc Binding :=
-  match (if isAsync then exec asyncWrapperKeep asyncWrapperProg m res else exec wrapperKeep wrapperProg m res) with
-  | some (f, r) => callWith sig f r
+  let rk := receiverKey sig isAsync
+  match (if isAsync then exec asyncWrapperKeep rk asyncWrapperProg m res else exec wrapperKeep rk wrapperProg m res) with
+  | some (f, r) => callWith sig rk f r
   | Option.none => .error .notCalled
 
 /-- a call of the decorated function: `.ok b` = the body runs and observes `b`; `.error e` = the body does not run -/
